@@ -151,6 +151,49 @@ struct PolyOp {
     }
 };
 
+// GFqDom ARRAY forms  op(sz, r, a, b ...): positions are arrays (std::vector<Rep> "c0,c1,.."), the scalars come in the extra tokens
+template <class GF> struct IOArr {
+    typedef std::vector<typename GF::Element> E;
+    static E parse(const std::string& s) { E r; std::istringstream is(s); std::string t; while (std::getline(is, t, ',')) r.push_back((typename GF::Element) atol(t.c_str())); return r; }
+    static std::string show(const E& x) { std::ostringstream o; for (size_t i = 0; i < x.size(); ++i) o << (i ? "," : "") << (long long) x[i]; return x.empty() ? "e" : o.str(); }
+};
+template <class GF> struct ArrOp {
+    typedef std::vector<typename GF::Element> E; typedef typename GF::Element Rep;
+    const GF& F; std::string op; const Args& x;
+    ArrOp(const GF& f, const std::string& o, const Args& e) : F(f), op(o), x(e) {}
+    bool operator()(std::vector<E*>& o, std::string&) {
+        size_t sz = o[0]->size();
+        for (size_t k = 1; k < o.size(); ++k) if (o[k]->size() < sz) sz = o[k]->size();
+        Rep s0 = x.size() > 0 ? (Rep) atol(x[0].c_str()) : 0, s1 = x.size() > 1 ? (Rep) atol(x[1].c_str()) : 0;
+#define D(k) (&(*o[k])[0])
+        if (op == "assign") F.assign(sz, D(0), D(1));
+        else if (op == "mul") F.mul(sz, D(0), D(1), D(2));
+        else if (op == "mul.s") F.mul(sz, D(0), D(1), s0);
+        else if (op == "div") F.div(sz, D(0), D(1), D(2));
+        else if (op == "div.s") F.div(sz, D(0), D(1), s0);
+        else if (op == "add") F.add(sz, D(0), D(1), D(2));
+        else if (op == "add.s") F.add(sz, D(0), D(1), s0);
+        else if (op == "sub") F.sub(sz, D(0), D(1), D(2));
+        else if (op == "sub.s") F.sub(sz, D(0), D(1), s0);
+        else if (op == "neg") F.neg(sz, D(0), D(1));
+        else if (op == "inv") F.inv(sz, D(0), D(1));
+        else if (op == "axpy") F.axpy(sz, D(0), s0, D(1), D(2));
+        else if (op == "axpy.c") F.axpy(sz, D(0), s0, D(1), s1);
+        else if (op == "axpyin") F.axpyin(sz, D(0), s0, D(1));
+        else if (op == "axmy") F.axmy(sz, D(0), s0, D(1), D(2));
+        else if (op == "axmy.c") F.axmy(sz, D(0), s0, D(1), s1);
+        else if (op == "maxpyin") F.maxpyin(sz, D(0), s0, D(1));
+        else return false;
+#undef D
+        return true;
+    }
+};
+template <class GF> static std::string goGFArr(const Case& c) {
+    static std::unique_ptr<GF> cur; static std::string curp;
+    if (!cur || curp != c.param) { long p, k; split_param(c.param, p, k); cur.reset(new GF((typename GF::Residu_t) p, (typename GF::Residu_t) k)); curp = c.param; }
+    ArrOp<GF> op(*cur, c.op, c.extra);
+    return run_two<typename IOArr<GF>::E, IOArr<GF> >(c, op);
+}
 template <class GF> static std::string goGF(const Case& c) {
     static std::unique_ptr<GF> cur; static std::string curp;
     if (!cur || curp != c.param) { long p, k; split_param(c.param, p, k); cur.reset(new GF((typename GF::Residu_t) p, (typename GF::Residu_t) k)); curp = c.param; }
@@ -188,6 +231,8 @@ static std::string goPoly(const Case& c) {
 int main() {
     dom_table()["gfq32"] = &goGF<GFqDom<int32_t> >;
     dom_table()["gfq64"] = &goGF<GFqDom<int64_t> >;
+    dom_table()["gfqarr32"] = &goGFArr<GFqDom<int32_t> >;
+    dom_table()["gfqarr64"] = &goGFArr<GFqDom<int64_t> >;
     dom_table()["ext"] = &goExt;
     dom_table()["poly"] = &goPoly;
     g_fork = true;
